@@ -1,7 +1,9 @@
 package conc
 
 import (
+	"context"
 	"fmt"
+	"io"
 	"os"
 	"runtime/debug"
 	"sort"
@@ -19,6 +21,7 @@ import (
 	"verif/report"
 	"verif/rt"
 	"verif/rt/vsync"
+	"verif/wire"
 
 	spb "github.com/openconfig/gribi/v1/proto/service"
 )
@@ -44,7 +47,7 @@ type linOp struct {
 }
 
 type linStep struct {
-	kind byte // 'P' session parameters (first message), 'E' announce, 'M' batch, 'X' leave
+	kind byte // 'P' session parameters (first message), 'E' announce, 'M' batch, 'X' leave, 'G' Get(all, ALL)
 	id   ID
 	ops  []linOp
 	fib  bool // 'P': RIB_AND_FIB_ACK instead of RIB_ACK
@@ -178,6 +181,44 @@ func linServer(n int, fib bool, progs []linProg) *server.Server {
 	return s
 }
 
+// get runs a Get over all instances and tables through the in-memory transport (real Get handler and producer
+// goroutine) and records the keys it returned: every instance is read under its lock, so the answer is the content
+// at ONE instant of the sequential order (the programs of this tier use one instance).
+func (ls *linSession) get(s *server.Server) {
+	st, err := wire.New(s).Get(context.Background(), &spb.GetRequest{NetworkInstance: &spb.GetRequest_All{All: &spb.Empty{}}, Aft: spb.AFTType_ALL})
+	if err != nil {
+		ls.obs = append(ls.obs, "G->error")
+		return
+	}
+	var keys []string
+	for {
+		r, err := st.Recv()
+		if err == io.EOF {
+			break
+		}
+		if err != nil {
+			ls.obs = append(ls.obs, "G->error")
+			return
+		}
+		for _, e := range r.GetEntry() {
+			switch t := e.GetEntry().(type) {
+			case *spb.AFTEntry_Ipv4:
+				keys = append(keys, "v4:"+t.Ipv4.GetPrefix())
+			case *spb.AFTEntry_Ipv6:
+				keys = append(keys, "v6:"+t.Ipv6.GetPrefix())
+			case *spb.AFTEntry_Mpls:
+				keys = append(keys, fmt.Sprint("mpls:", t.Mpls.GetLabelUint64()))
+			case *spb.AFTEntry_NextHopGroup:
+				keys = append(keys, fmt.Sprint("nhg:", t.NextHopGroup.GetId()))
+			case *spb.AFTEntry_NextHop:
+				keys = append(keys, fmt.Sprint("nh:", t.NextHop.GetIndex()))
+			}
+		}
+	}
+	sort.Strings(keys)
+	ls.obs = append(ls.obs, "G{"+strings.Join(keys, ",")+"}")
+}
+
 // negotiate sends the session parameters as the Modify handler processes them.
 func (ls *linSession) negotiate(s *server.Server, fib bool) {
 	p := proto.Clone(params).(*spb.SessionParameters)
@@ -201,6 +242,8 @@ func (ls *linSession) step(s *server.Server, st linStep, from, to int) {
 	switch st.kind {
 	case 'P':
 		ls.negotiate(s, st.fib)
+	case 'G':
+		ls.get(s)
 	case 'E':
 		ls.election(s, st.id)
 	case 'X':
@@ -211,7 +254,7 @@ func (ls *linSession) step(s *server.Server, st linStep, from, to int) {
 }
 
 // linSequential returns every outcome of the programs interleaved at step granularity on a sequential server.
-func linSequential(progs []linProg, fib bool) map[string]bool {
+func linSequential(progs []linProg, fib bool, pre [][]linStep) map[string]bool {
 	type atom struct {
 		sess int
 		step int
@@ -237,6 +280,11 @@ func linSequential(progs []linProg, fib bool) map[string]bool {
 		var ss []*linSession
 		for k := range progs {
 			ss = append(ss, &linSession{sid: linSIDs[k]})
+			if k < len(pre) {
+				for _, st := range pre[k] {
+					ss[k].step(s, st, 0, len(st.ops))
+				}
+			}
 		}
 		for _, at := range order {
 			ls := ss[at.sess]
@@ -273,16 +321,33 @@ func linSequential(progs []linProg, fib bool) map[string]bool {
 	return out
 }
 
-func linBody(progs []linProg, fib bool) func() {
+func linBody(progs []linProg, fib bool, pre [][]linStep) func() {
 	return func() {
 		s := linServer(len(progs), fib, progs)
 		var ss []*linSession
 		var wg vsync.WaitGroup
 		wg.Add(len(progs))
+		hasReader := false
+		for _, p := range progs {
+			for _, st := range p.steps {
+				hasReader = hasReader || st.kind == 'G'
+			}
+		}
 		for k := range progs {
 			ls, p := &linSession{sid: linSIDs[k]}, progs[k]
 			ss = append(ss, ls)
-			rt.Go("session-"+ls.sid, func() {
+			if k < len(pre) {
+				for _, st := range pre[k] {
+					ls.step(s, st, 0, len(st.ops))
+				}
+			}
+			// with a reader among the sessions the writers are background threads: by default the Get pipeline (client,
+			// handler, producer goroutine) runs undisturbed, and a deviation puts a writer's steps at any point inside it
+			prio := 0
+			if hasReader && (len(p.steps) == 0 || p.steps[0].kind != 'G') {
+				prio = 1
+			}
+			rt.GoPrio("session-"+ls.sid, prio, func() {
 				defer wg.Done()
 				for _, st := range p.steps {
 					if ls.dead {
@@ -341,6 +406,9 @@ func linPrograms() (as, bs, cs []linProg) {
 type linCase struct {
 	progs []linProg
 	fib   bool
+	// pre[k] are steps of session k that are executed before the concurrent phase starts (sequentially, in the
+	// reference and in the concurrent runs alike): the start state of the case
+	pre [][]linStep
 }
 
 func linCases() map[string]linCase {
@@ -359,6 +427,19 @@ func linCases() map[string]linCase {
 	for _, ijk := range [][3]int{{0, 0, 0}, {2, 3, 1}, {3, 0, 1}, {1, 5, 0}} {
 		out[fmt.Sprintf("lin/%d/%d/c%d", ijk[0], ijk[1], ijk[2])] = linCase{progs: []linProg{as[ijk[0]], bs[ijk[1]], cs[ijk[2]]}}
 	}
+	// a reader: Get(all, ALL) twice while the other session builds a chain and removes it again, one entry per
+	// operation - every answer must be the content at one instant of some sequential order. (Not with forward
+	// references: one operation then installs several entries one after the other, and a Get may legitimately see
+	// the next-hop without the group that the same call is about to resolve - tried, flagged, removed: the
+	// granularity of the sequential reference is the operation, the granularity of installation is the entry.)
+	reader := linProg{"b: Get(all, ALL); Get(all, ALL)", []linStep{{kind: 'G'}, {kind: 'G'}}}
+	for _, i := range []int{1, 4} {
+		out[fmt.Sprintf("lin/%d/get", i)] = linCase{progs: []linProg{as[i], reader}}
+	}
+	// ... and from a state in which two chains are installed: the writer removes one of them while the reader reads
+	chain := as[4]
+	out["lin/chain-delete/get"] = linCase{progs: []linProg{{"a (two chains installed): [DELETE v4, DELETE g1, DELETE nh1]", chain.steps[2:]}, reader},
+		pre: [][]linStep{append(append([]linStep{}, chain.steps[:2]...), bs[1].steps[1])}}
 	// (Sessions that NEGOTIATE at the same time are deliberately not part of this tier: the reference server refuses
 	// session parameters while any other live session has not negotiated yet - which the property leaves open, see
 	// the C09 oracle - so two sessions that open and negotiate simultaneously can both be refused, an outcome that no
@@ -400,7 +481,7 @@ func ChildC06Concurrent(rep *report.Report, tier, part string) {
 				rep.Violate("crash/"+crashSite(string(debug.Stack())), fmt.Sprintf("the server panicked while the programs were run SEQUENTIALLY (reference of the concurrent-sessions tier): %v", r), map[string]any{"scenario": "concurrent-sessions/" + part[4:]})
 			}
 		}()
-		seq = linSequential(lc.progs, lc.fib)
+		seq = linSequential(lc.progs, lc.fib, lc.pre)
 	}()
 	if crashed {
 		return
@@ -424,7 +505,7 @@ func ChildC06Concurrent(rep *report.Report, tier, part string) {
 	unbounded := os.Getenv("VERIF_LIN_UNBOUNDED") != ""
 	dl := ribhist.Budget(tier, 90*time.Second, 20*time.Minute)
 	name := "concurrent-sessions/" + part[4:]
-	res := mc.DFS(mc.SchedConfig{Name: name, Body: linBody(lc.progs, lc.fib), Bound: bound, Unbounded: unbounded, SwitchCost: 1, Deadline: dl,
+	res := mc.DFS(mc.SchedConfig{Name: name, Body: linBody(lc.progs, lc.fib, lc.pre), Bound: bound, Unbounded: unbounded, SwitchCost: 1, Deadline: dl,
 		Outcome: func(x *rt.Exec) string {
 			for _, e := range x.Events {
 				if e.Label == "lin-outcome" {
